@@ -5,6 +5,7 @@
 import Driver.CoreWire
 import MxlVerif.Model.C10
 import MxlVerif.Model.C10Spec
+import MxlVerif.Lemmas.C10RhsNames
 open Lean Mxl Mxl.Wire Mxl.C10
 namespace Driver.H_c10
 
@@ -72,6 +73,15 @@ def handle (j : Json) : Except String Json := do
   let c ← match withPars c initPars with
     | .ok c' => pure c'
     | .error _ => .error "init_pars: unknown parameter"
+  if let .bool true := fieldD j "checks" (.bool false) then
+    -- the decidable hypotheses of the theorems, evaluated on this very case: which variables have no state- or
+    -- time-dependent coefficient (hypothesis of the `_partial` theorems = complement of finding F-C10-2), and
+    -- whether the structural check behind `C10_reported_derivative_is_core_derivative` holds
+    let noDyn := c.vars.map fun kv => Json.arr #[.str kv.1, .bool (noDynCoefB res c kv.1)]
+    let rhsOk := match createCache c with
+      | .ok cache => Json.bool (rhsNamesOkB c cache)
+      | .error _ => Json.null
+    return Json.mkObj [("no_dyn_coef", .arr noDyn.toArray), ("rhs_names_ok", rhsOk)]
   let out :=
     if spec then specHistory res c c evs
     else runHistory res evs { model := c, memo := [] }
